@@ -276,7 +276,7 @@ Promoted(fs, i, o, rd) ==
                    ELSE <<>>
        IN here @@ Promoted(fs, i + 1, o, rd)
 
-RECURSIVE HasEmb(_), HasNilMap(_), HasTime(_), Depth(_)
+RECURSIVE HasEmb(_), HasNilMap(_), HasTime(_), HasArray(_), Depth(_)
 Kids(g) ==
   CASE g.g \in {"slice", "array"} -> {g.v[i] : i \in 1..Len(g.v)}
     [] g.g = "map" -> {g.v[k] : k \in DOMAIN g.v}
@@ -286,6 +286,7 @@ Kids(g) ==
 HasEmb(g) == (g.g = "struct" /\ \E i \in 1..Len(g.v) : g.v[i].emb) \/ \E k \in Kids(g) : HasEmb(k)
 HasNilMap(g) == (g.g = "map" /\ g.nil) \/ \E k \in Kids(g) : HasNilMap(k)
 HasTime(g) == g.g = "time" \/ \E k \in Kids(g) : HasTime(k)
+HasArray(g) == g.g = "array" \/ \E k \in Kids(g) : HasArray(k)
 Depth(g) == IF Kids(g) = {} THEN 0
             ELSE LET ds == {Depth(k) : k \in Kids(g)} IN
                  (CHOOSE d \in ds : \A e \in ds : e <= d) + (IF g.g = "iface" THEN 0 ELSE 1)
@@ -512,11 +513,10 @@ PoolPart(size, part) ==
     [] part = 4 -> ContB(R1(size))
 Parts == 0..4
 
-\* Go values whose conversions feed the pair laws (depth <= 1)
-PairSource(size) == Leaves \cup (IF size >= 2 THEN G1(1) ELSE Cont(R0(2), R0(1)))
-
-\* Soy values for the pair laws: every distinct value those conversions
-\* produce under the two main option settings, plus undefined
-ValuePool(size) == {Convert(x, o, Rd0) : x \in PairSource(size), o \in MainOpts} \cup {Undef}
+\* Go values whose conversions feed the pair laws (depth <= 1; arrays left
+\* out: the real converter rejects them).  GValue(Undef) is a leaf, so
+\* undefined takes part.
+PairSource(size) ==
+  {x \in Leaves \cup (IF size >= 2 THEN G1(1) ELSE Cont(R0(2), R0(1))) : ~HasArray(x)}
 
 =============================================================================
